@@ -29,6 +29,9 @@ type config struct {
 	LA     int    `json:"la"`     // length of the sequence of When(1); 0 = clause absent
 	LB     int    `json:"lb"`     // length of the sequence of When(2); 0 = clause absent
 	LD     int    `json:"ld"`     // length of the default sequence
+	// BAny: the second clause is When(Any()) instead of When(2): it overlaps the first one (a call
+	// with 1 still selects the first-registered clause) and also takes the calls with 9
+	BAny bool `json:"b_any,omitempty"`
 }
 
 func vals(base, n int) []interface{} {
@@ -79,7 +82,7 @@ func install(cf config) *world {
 			wh = seq(wh.When(1).Return, vals(200, cf.LA))
 		}
 		if cf.LB > 0 {
-			wh = seq(wh.When(2).Return, vals(300, cf.LB))
+			wh = seq(wh.When(condB(cf)).Return, vals(300, cf.LB))
 		}
 	} else {
 		wh = m.Returns(vals(100, cf.LD)...)
@@ -87,11 +90,18 @@ func install(cf config) *world {
 			wh = wh.When(1).Returns(vals(200, cf.LA)...)
 		}
 		if cf.LB > 0 {
-			wh = wh.When(2).Returns(vals(300, cf.LB)...)
+			wh = wh.When(condB(cf)).Returns(vals(300, cf.LB)...)
 		}
 	}
 	_ = wh
 	return w
+}
+
+func condB(cf config) interface{} {
+	if cf.BAny {
+		return arg.Any()
+	}
+	return 2
 }
 
 func (w *world) reset() {
@@ -133,7 +143,7 @@ func runSeq(cf config, calls []int) string {
 		case a == 1 && cf.LA > 0:
 			want = expect(200, cf.LA, kA)
 			kA++
-		case a == 2 && cf.LB > 0:
+		case (a == 2 || cf.BAny) && cf.LB > 0:
 			want = expect(300, cf.LB, kB)
 			kB++
 		default:
@@ -160,14 +170,17 @@ func seq(c *vk.Ctx) {
 		for la := 0; la <= maxLen; la++ {
 			for lb := 0; lb <= maxLen; lb++ {
 				for ld := 1; ld <= maxLen; ld++ {
-					cfgs = append(cfgs, config{"func", build, la, lb, ld})
+					cfgs = append(cfgs, config{Target: "func", Build: build, LA: la, LB: lb, LD: ld})
+					if la > 0 && lb > 0 {
+						cfgs = append(cfgs, config{Target: "func", Build: build, LA: la, LB: lb, LD: ld, BAny: true})
+					}
 				}
 			}
 		}
 		for _, tg := range []string{"method", "iface"} {
 			for la := 0; la <= 3; la++ {
 				for ld := 1; ld <= 3; ld++ {
-					cfgs = append(cfgs, config{tg, build, la, 0, ld})
+					cfgs = append(cfgs, config{Target: tg, Build: build, LA: la, LD: ld})
 				}
 			}
 		}
@@ -216,7 +229,7 @@ func seq(c *vk.Ctx) {
 				min := vk.Minimize(calls, func(s []int) bool { return runSeq(cf, s) != "" })
 				g := runSeq(cf, min)
 				cs.Calls = min
-				c.Violate(fmt.Sprintf("seq target=%s build=%s la=%d lb=%d ld=%d calls=%v class=%s", cf.Target, cf.Build, cf.LA, cf.LB, cf.LD, argsOf(min), cls(g)), g, cs)
+				c.Violate(fmt.Sprintf("seq target=%s build=%s la=%d lb=%d%s ld=%d calls=%v class=%s", cf.Target, cf.Build, cf.LA, cf.LB, map[bool]string{true: "(Any)", false: ""}[cf.BAny], cf.LD, argsOf(min), cls(g)), g, cs)
 			}
 		}
 	}
@@ -508,10 +521,10 @@ func concScenario(stub string, n int, threads []int) (sched.Scenario, func() []c
 		clock int
 	)
 	base, arg := 100, 9
-	cf := config{"func", "chain", 0, 0, n}
+	cf := config{Target: "func", Build: "chain", LD: n}
 	if stub == "when" {
 		base, arg = 200, 1
-		cf = config{"func", "chain", n, 0, 1}
+		cf = config{Target: "func", Build: "chain", LA: n, LD: 1}
 	}
 	sc := sched.Scenario{
 		Name:    fmt.Sprintf("c05/%s/n=%d/%v", stub, n, threads),
@@ -607,6 +620,9 @@ func threadConfigs(thorough bool) [][]int {
 	}
 	if thorough {
 		out = append(out, []int{3, 3, 1}, []int{1, 1, 1, 1})
+	} else {
+		// one caller stalled in the middle of a call while another walks through the whole sequence
+		out = append(out, []int{2, 3}, []int{3, 2}, []int{1, 3, 1})
 	}
 	return out
 }
@@ -671,10 +687,10 @@ func race(c *vk.Ctx) {
 			for _, nt := range []int{2, 4, 8} {
 				for r := 0; r < rounds; r++ {
 					base, arg := 100, 9
-					cf := config{"func", "chain", 0, 0, n}
+					cf := config{Target: "func", Build: "chain", LD: n}
 					if stub == "when" {
 						base, arg = 200, 1
-						cf = config{"func", "chain", n, 0, 1}
+						cf = config{Target: "func", Build: "chain", LA: n, LD: 1}
 					}
 					w := install(cf)
 					var wg sync.WaitGroup
